@@ -1,4 +1,4 @@
-\* rpc: every RPC mix (all 127 subsets) and PX list from p1 at every score; gater throttling (superset of quiet/off)
+\* small degrees (D=2, Dlo=1, Dhi=2, Dscore=1): the mesh fills up, so the mesh-full refusal of handleGraft (the only one that keeps PX) and the over-subscription prune are reachable
 SPECIFICATION Spec
 CONSTANTS
   p1 = p1
@@ -15,12 +15,12 @@ CONSTANTS
   FloodPublish = FALSE
   DoPX = TRUE
   Gater = "throttling"
-  MixMode = "all"
-  ScoreFree = {p1}
-  D = 4
-  Dlo = 2
-  Dhi = 5
-  Dscore = 2
+  MixMode = "move"
+  ScoreFree = {p1, p2, p3}
+  D = 2
+  Dlo = 1
+  Dhi = 2
+  Dscore = 1
   Bug = "none"
 INVARIANT TypeOK
 INVARIANT Inv_All
